@@ -627,7 +627,7 @@ fn gen_widths(ctx: &Ctx, rng: &mut Rng, thorough: bool) -> Vec<OpsCase> {
         }
     }
     // two width keys and max_width, every order of the three overrides; raising after clamping
-    for _ in 0..(if thorough { 4000 } else { 600 }) {
+    for _ in 0..(if thorough { 30000 } else { 600 }) {
         let mw = *rng.pick(&[40usize, 80, 100, 120, 150]);
         let w1 = pk(rng, WIDTH_KEYS);
         let mut w2 = pk(rng, WIDTH_KEYS);
@@ -1692,20 +1692,20 @@ pub fn run(tier: &str, seed: u64, out: &Path) -> i32 {
     let n_singles = cases.len();
     cases.extend(gen_aliases(&ctx));
     cases.extend(gen_widths(&ctx, &mut rng, thorough));
-    cases.extend(gen_mixed(&ctx, &mut rng, if thorough { 6000 } else { 500 }));
+    cases.extend(gen_mixed(&ctx, &mut rng, if thorough { 30000 } else { 500 }));
     let results = stage_ops(&ctx, &mut o, &cases);
     same_effect_oracle(&mut o, &cases[..n_singles], &results[..n_singles]);
     alias_oracle(&mut o, &cases, &results);
     // (c) heuristics, exhaustively
     stage_scaled(&ctx, &mut o);
     // (d) print / re-parse
-    stage_roundtrip(&ctx, &mut o, &mut rng, if thorough { 3000 } else { 250 });
+    stage_roundtrip(&ctx, &mut o, &mut rng, if thorough { 12000 } else { 250 });
 
     // (a) layouts
     let lay = work.join("lay");
     let mut layouts = enumerated_layouts(&ctx, &lay);
     let n_enum = layouts.len();
-    let n_random = if thorough { 700 } else { 70 };
+    let n_random = if thorough { 2500 } else { 70 };
     for i in 0..n_random {
         layouts.push(gen_layout(&ctx, &mut rng, lay.join(format!("r{}", i))));
     }
